@@ -253,6 +253,7 @@ func TestVerifC09(t *testing.T) {
 		}
 	}
 	multiGroup(t, s, sv, base)
+	indexModeOrder(t, s, sv, base)
 	// the largest limit together with an offset (sum exceeds 32 bits)
 	for _, b := range bs {
 		for _, off := range []int{1, 3} {
@@ -281,6 +282,111 @@ func TestVerifC09(t *testing.T) {
 }
 
 // multiGroup: one ordered query over 3-4 groups; the per-group results are k-way merged by the coordinator.
+// indexModeOrder: an index-mode measure (tags only, kept in the series index) ordered by an indexed tag over three
+// day segments, the segments holding different, overlapping subsets of the series. What one series contributes across segments is the engine's
+// business; whatever comes back must be sorted by the ordered tag in the requested direction, every row must be a
+// written one, and no row may come back twice.
+func indexModeOrder(t *testing.T, s *verifh.Sink, sv *srv, base time.Time) {
+	must := func(err error) {
+		if err != nil {
+			t.Fatalf("setup: %v", err)
+		}
+	}
+	const g, name = "qi", "mix0"
+	must(sv.group(g, commonv1.Catalog_CATALOG_MEASURE, 2, commonv1.IntervalRule_UNIT_DAY, 1, 36500))
+	tags := []*databasev1.TagSpec{{Name: "id", Type: databasev1.TagType_TAG_TYPE_STRING}, {Name: "uid", Type: databasev1.TagType_TAG_TYPE_INT}, {Name: "dur", Type: databasev1.TagType_TAG_TYPE_INT}}
+	must(sv.measure(&databasev1.Measure{Metadata: &commonv1.Metadata{Name: name, Group: g}, TagFamilies: []*databasev1.TagFamilySpec{{Name: "default", Tags: tags}},
+		Entity: &databasev1.Entity{TagNames: []string{"id"}}, IndexMode: true}))
+	must(sv.indexRule(g, name+"_dur", []string{"dur"}, databasev1.IndexRule_TYPE_INVERTED))
+	must(sv.bind(g, name+"_binding", []string{name + "_dur"}, commonv1.Catalog_CATALOG_MEASURE, name))
+	time.Sleep(8 * time.Second)
+	point := func(id string, uid, dur int64, ts time.Time) *measurev1.DataPointValue {
+		return &measurev1.DataPointValue{Timestamp: timestamppb.New(ts), TagFamilies: []*modelv1.TagFamilyForWrite{{Tags: []*modelv1.TagValue{tStr(id), tInt(uid), tInt(dur)}}}}
+	}
+	must(sv.waitWritableMeasure(g, name, func() *measurev1.DataPointValue {
+		return point("sentinel", -1, -1, time.Date(2020, 1, 1, 0, 0, 0, 0, time.UTC))
+	}))
+	r := verifh.Rand("c09idx", 0)
+	durOf := map[int64]int64{}
+	var uid int64 = 1 << 30
+	var pts []*measurev1.DataPointValue
+	nSeries := 14
+	durs := r.Perm(nSeries)
+	for d := 0; d < 3; d++ {
+		for i := 0; i < nSeries; i++ {
+			if d != i%3 && r.Intn(5) < 2 {
+				continue // the segments hold different subsets of the series (every series is in at least one)
+			}
+			uid++
+			dur := int64(100 * (durs[i] + 1)) // constant per series, distinct between series
+			durOf[uid] = dur
+			pts = append(pts, point(fmt.Sprintf("x%02d", i), uid, dur, base.Add(time.Duration(d)*24*time.Hour+time.Duration(i)*time.Second)))
+		}
+	}
+	acked, err := sv.writeMeasure(g, name, pts)
+	if err != nil || countTrue(acked) != len(pts) {
+		t.Fatalf("setup: index-mode write: %v", err)
+	}
+	time.Sleep(1500 * time.Millisecond)
+	proj := &modelv1.TagProjection{TagFamilies: []*modelv1.TagProjection_TagFamily{{Name: "default", Tags: []string{"id", "uid", "dur"}}}}
+	for q := 0; q < verifh.Pick(30, 300); q++ {
+		rr := verifh.Rand("c09idxq", q)
+		asc := rr.Intn(2) == 0
+		dir := modelv1.Sort_SORT_DESC
+		if asc {
+			dir = modelv1.Sort_SORT_ASC
+		}
+		days := 1 + rr.Intn(3)
+		first := rr.Intn(4 - days)
+		lo, hi := base.Add(time.Duration(first)*24*time.Hour-time.Hour), base.Add(time.Duration(first+days)*24*time.Hour-time.Hour)
+		limit, offset := []uint32{0, 3, 100}[rr.Intn(3)], []uint32{0, 1, 5}[rr.Intn(3)]
+		desc := fmt.Sprintf("index-mode order=dur dir=%v days=%d..%d offset=%d limit=%d", dir, first, first+days-1, offset, limit)
+		resp, err := sv.queryMeasure(&measurev1.QueryRequest{Groups: []string{g}, Name: name, TimeRange: tsRange(lo, hi), TagProjection: proj,
+			OrderBy: &modelv1.QueryOrder{IndexRuleName: name + "_dur", Sort: dir}, Limit: limit, Offset: offset})
+		s.Case(desc, days > 1)
+		s.Count("c09.queries.index_mode_measure", 1)
+		if err != nil {
+			s.Violation("c09:index-mode:query-error", map[string]any{"query": desc, "err": clipS(err.Error(), 300)})
+			continue
+		}
+		var keys []int64
+		seen := map[int64]bool{}
+		bad := ""
+		for i, dp := range resp.DataPoints {
+			var u, d int64 = -1, -1
+			for _, tf := range dp.TagFamilies {
+				for _, tg := range tf.Tags {
+					switch tg.Key {
+					case "uid":
+						u = tg.Value.GetInt().GetValue()
+					case "dur":
+						d = tg.Value.GetInt().GetValue()
+					}
+				}
+			}
+			keys = append(keys, d)
+			switch want, ok := durOf[u]; {
+			case !ok || want != d:
+				bad = fmt.Sprintf("position %d: uid %d with dur %d was never written", i, u, d)
+			case seen[u]:
+				bad = fmt.Sprintf("position %d: uid %d returned twice", i, u)
+			case i > 0 && ((asc && keys[i-1] > d) || (!asc && keys[i-1] < d)):
+				bad = fmt.Sprintf("not sorted at position %d: %d then %d", i, keys[i-1], d)
+			}
+			seen[u] = true
+			if bad != "" {
+				break
+			}
+		}
+		if q < 1 {
+			s.Sample(map[string]any{"query": desc, "returned_keys": keys})
+		}
+		if bad != "" {
+			s.Violation("c09:index-mode:order-by-tag", map[string]any{"query": desc, "discrepancy": bad, "returned_keys": fmt.Sprint(keys)})
+		}
+	}
+}
+
 func multiGroup(t *testing.T, s *verifh.Sink, sv *srv, base time.Time) {
 	must := func(err error) {
 		if err != nil {
